@@ -43,6 +43,7 @@ import (
 	"bufio"
 	"bytes"
 	"io"
+	"math"
 	"unicode"
 	"unicode/utf8"
 )
@@ -178,6 +179,10 @@ func NewDecoder(r io.Reader) *Decoder {
 	d := &Decoder{
 		s: bufio.NewScanner(r),
 	}
+	// Lines are tokenized as a whole, so do not limit them to the scanner's
+	// default maximum token size (longer lines would fail with
+	// bufio.ErrTooLong without producing any tokens).
+	d.s.Buffer(nil, math.MaxInt)
 	d.s.Split(d.scan)
 	return d
 }
